@@ -158,8 +158,13 @@ partial def renderGoVal : GoVal → String
 
 /-- the Env used by the driver: hardware float conversion via Lean's native floats; the time
 functions are installed by `Drv/Time.lean` when available. -/
-def widenBits (b : Nat) : Nat := (Float32.ofBits b.toUInt32).toFloat.toBits.toNat
-def narrowBits (b : Nat) : Nat := (Float.ofBits b.toUInt64).toFloat32.toBits.toNat
+def widenBits (b : Nat) : Nat :=
+  -- NaN: the conversion instruction keeps sign and payload and sets the quiet bit
+  if isNaN32 b then (b / 2 ^ 31) * 2 ^ 63 + 0x7FF8000000000000 + (b % 2 ^ 22) * 2 ^ 29
+  else (Float32.ofBits b.toUInt32).toFloat.toBits.toNat
+def narrowBits (b : Nat) : Nat :=
+  if isNaN64 b then (b / 2 ^ 63) * 2 ^ 31 + 0x7FC00000 + (b % 2 ^ 51) / 2 ^ 29
+  else (Float.ofBits b.toUInt64).toFloat32.toBits.toNat
 
 def floorDiv (a b : Int) : Int := Int.fdiv a b
 
